@@ -586,6 +586,8 @@ def credit_oracle():
 
 
 def correspond(ctx, corr, model_ok):
+    from harness import battery
+    battery.run(corr, ['rx-disposal', 'rx-credit'])
     cases = gen_cases(ctx, ctx.scale(150, 1500))
     coq = []
     for c in cases:
@@ -628,5 +630,9 @@ def search(ctx, budget):
 
 
 def replay(obj):
+    from harness import battery as _bat
+    _r = _bat.replay(obj.get('case') if isinstance(obj.get('case'), dict) else obj)
+    if _r is not None:
+        return _r
     case = obj.get('case') or obj
     return bool(oracle(run_case(case['rx_case'])))
